@@ -26,8 +26,9 @@ CHEAP = {
     "sha512crypt": [b"$6$saltsalt", b"$6$rounds=1000$s"], "sha256crypt": [b"$5$saltsalt", b"$5$rounds=1001$s$"],
     "sha1crypt": [b"$sha1$20$saltsalt", b"$sha1$3$x$"], "sunmd5": [b"$md5,rounds=5$saltsalt$", b"$md5$salt$$", b"$md5$" + b"S" * 340 + b"$"],
     "md5crypt": [b"$1$saltsalt", b"$1$$"], "nt": [b"$3$", b"$3$$junk"],
-    "bsdicrypt": [b"_/...salt", b"_1...abcdtail"],
-    "des": [b"ab", b"xy1234567890a", b"ab............", b"Zz" + b"q" * 30, b"a", b"a!"],
+    "bsdicrypt": [b"_/...salt", b"_1...abcdtail", b"_/......."],
+    "des": [b"ab", b"xy1234567890a", b"ab............", b"Zz" + b"q" * 30, b"a", b"a!",
+            b"..", b"..abcdefghijk", b"./", b"/.", b"zz", b".." + b"." * 12],     # salt value 0 and the extremes
 }
 PHRASES = [b"short", b"a phrase longer than eight", b"12345678", b"123456789"]
 
